@@ -13,6 +13,6 @@ def run(rep, tier, seed):
     for cfg in ('avx2', 'avx512'):
         matcheck.run_family(rep, cfg, PAT, 11, 'C13')
     # spmv_avx_4x12_8 does raw adds on the high parts of its 72-bit products: decided on exact integers, every lane
-    n = kcheck.prove_dot8(rep, 'avx2', 4, seed=seed)
-    rep.floor('8-bit sparse kernel (kernel mode)', n, 1)
+    n = kcheck.prove_field_contracts(rep, 'avx2', 4, seed=seed)     # the lane kernels the matrix kernels are built from, incl. the 8-bit sparse kernel
+    rep.floor('lane kernels proved (kernel mode)', n, 18)
     rep.trusted = ['clang 14 lowering', 'glv abstract interpreter', 'lane-kernel contracts (proved by C02 kernel mode)']
